@@ -10,6 +10,10 @@ CHECKS = {
          "Every schedule (within the preemption bound) of every dispatch skeleton with <=3 pipelines x 3 nodes, with the context cancelled at every scheduling point, before the call, or never, is executed on the real code; each execution is checked for deadlock, panic, channel/WaitGroup misuse and goroutines that never exit. This is exhaustive within the stated bounds, which is what a liveness/leak property over schedules needs; tests sample one schedule.",
          "Scheduler models of Mutex/RWMutex/WaitGroup/channels/select/sync.Map.Range (litmus-tested); scheduling points only at synchronisation operations (sound for race-free code, race freedom decided by C04/C19); instrumenter validated by running the repository's own suite on the rewritten sources (./run selftest).",
          "DESIGN.md §3 C03"),
+ "C04": ("stateless model checking of small concurrent Broker programs under a controlled scheduler with the Go race detector active on every explored schedule; interval-based delivery oracle; quiescent-state linearizability by brute force over sequential orders",
+         "299 (quick) programs of 2-3 threads over a 17-call Broker alphabet are run on the real Broker under every schedule within the preemption bound. The race detector runs inside the controlled scheduler (hand-offs carry no happens-before edge; primitive models re-create the real edges), so a race is attributed to a concrete replayable schedule instead of depending on timing. Delivery counts of every Send are checked against the call/return intervals of the registry calls, and the quiescent private state plus all return values must equal those of a sequential order consistent with real-time order.",
+         "Go race detector (no false positives; complete only for the explored synchronisation orders); bounds: <=3 threads, <=2 calls each, preemption bound 2/1 quick, 3/2 thorough; reflective dump of the Broker's private state as the state-equality oracle.",
+         "DESIGN.md §3 C04"),
 }
 
 NOT_YET = "check not built yet in this session (work in progress; see DESIGN.md for the plan)"
